@@ -15,7 +15,7 @@ from . import common
 PROPERTY = 'C14'
 LEVEL = 'fault_enumeration'
 
-CLAUSES = ['select', 'where', 'order', 'group', 'aggarg', 'aggarg-expr', 'update-rhs', 'update-target', 'join-a', 'join-b', 'select-upper', 'where-upper', 'unnest']
+CLAUSES = ['select', 'where', 'order', 'group', 'aggarg', 'aggarg-expr', 'update-rhs', 'update-target', 'join-a', 'join-a-multi', 'join-b', 'select-upper', 'where-upper', 'unnest']
 
 
 def base_query():
@@ -81,6 +81,13 @@ def poison_case(clause, n, ks, rng):
         B = [['k0', 'B0'], ['k1', 'B1']]
         q['items'] = [{'kind': 'expr', 'expr': fld(0)}, {'kind': 'expr', 'expr': fld(1, 'var', 'b')}]
         q['join'] = {'type': rng.choice(['JOIN', 'LEFT JOIN']), 'table': 'b', 'pairs': [[fld(2, sp), fld(0, 'var', 'b'), '==', False]]}
+    elif clause == 'join-a-multi':
+        # a composite key over non-adjacent columns; the short record still has the first of them
+        for k in ks:
+            A[k - 1] = A[k - 1][:1]
+        B = [[str(v), 'k%d' % j, 'B%d%d' % (v, j)] for v in range(1, 6) for j in range(2)]
+        q['items'] = [{'kind': 'expr', 'expr': fld(0)}, {'kind': 'expr', 'expr': fld(2, 'var', 'b')}]
+        q['join'] = {'type': rng.choice(['JOIN', 'LEFT JOIN']), 'table': 'b', 'pairs': [[fld(0, 'var'), fld(0, 'var', 'b'), '==', False], [fld(2, sp), fld(1, 'var', 'b'), '==', False]]}
     elif clause == 'join-b':
         B = [['k%d' % (i % 2), 'B%d' % i] for i in range(n)]
         for k in ks:
@@ -535,7 +542,7 @@ def run_shard(spec, res):
 
 def summarize(tier, seed, m):
     return {
-        'rule': 'fault enumeration: one (and two: the first must be named) poisoned record at every position k of tables of 1..6 records x 13 clause placements (SELECT, WHERE, ORDER BY key, GROUP BY key, aggregate argument, aggregate over a failing expression, UPDATE right-hand side, UPDATE target beyond the record, JOIN key on A, JOIN key on B, missing field under .upper() in SELECT / WHERE, UNNEST list) with poison kinds non-numeric cell under int() / numeric aggregate, missing field, missing join key; %d statically detectable mistakes x 6 spelling / header variants (parsing error, zero records written); an invalid byte sequence at every offset of a UTF-8 file x 7 sequences x 3 chunk sizes, header / column-list inconsistencies, defective quoted_rfc quoting (IO-handling error); every subset of the anomalies {ragged, malformed quote, separator in simple output, BOM} (+ None from short records) on header-less full-scan queries with the exact iff and the cited record numbers. the poisoned record at every position of 2-6 record tables delivered by front-ends whose own numbering differs from the record number (CSV with header line, comment lines and multi-line cells through query_csv and the command line; a dataframe with a non-default index; a sqlite table with rowid gaps) under six query shapes: query-execution error naming record k; colorized simple / whitespace output (2-17 columns, delimiters that occur inside the colour escape sequences) with the separator warning iff a FIELD holds the delimiter; distinct_nontrivial counts enumerated scenarios.' % len(PARSING_QUERIES),
+        'rule': 'fault enumeration: one (and two: the first must be named) poisoned record at every position k of tables of 1..6 records x 14 clause placements (SELECT, WHERE, ORDER BY key, GROUP BY key, aggregate argument, aggregate over a failing expression, UPDATE right-hand side, UPDATE target beyond the record, JOIN key on A, composite JOIN key on A (non-adjacent columns), JOIN key on B, missing field under .upper() in SELECT / WHERE, UNNEST list) with poison kinds non-numeric cell under int() / numeric aggregate, missing field, missing join key; %d statically detectable mistakes x 6 spelling / header variants (parsing error, zero records written); an invalid byte sequence at every offset of a UTF-8 file x 7 sequences x 3 chunk sizes, header / column-list inconsistencies, defective quoted_rfc quoting (IO-handling error); every subset of the anomalies {ragged, malformed quote, separator in simple output, BOM} (+ None from short records) on header-less full-scan queries with the exact iff and the cited record numbers. the poisoned record at every position of 2-6 record tables delivered by front-ends whose own numbering differs from the record number (CSV with header line, comment lines and multi-line cells through query_csv and the command line; a dataframe with a non-default index; a sqlite table with rowid gaps) under six query shapes: query-execution error naming record k; colorized simple / whitespace output (2-17 columns, delimiters that occur inside the colour escape sequences) with the separator warning iff a FIELD holds the delimiter; distinct_nontrivial counts enumerated scenarios.' % len(PARSING_QUERIES),
         'exhaustive': True,
         'required': ['colorized_output_runs', 'frontend_poison_runs:query_csv', 'frontend_poison_runs:cli', 'frontend_poison_runs:pandas', 'frontend_poison_runs:sqlite', 'header_separator_runs', 'poison_runs', 'parsing_runs', 'bad_byte_runs', 'inconsistent_input_runs', 'warning_runs', 'list_warning_runs', 'field_name_checks', 'no_write_before_parsing_error_checks', 'js_cases',
                      'warning_iff:bom:present', 'warning_iff:fields:present', 'warning_iff:none:present', 'warning_iff:quote:present', 'warning_iff:sep:present'] + ['poison:' + c for c in CLAUSES],
